@@ -88,7 +88,7 @@ REACH = ["introductions_judged", "puncture_request_observed", "puncture_dropped_
          "lan_delivery_inside_nat", "new_style_exchange", "old_style_exchange", "unroutable_lan_attempt",
          "hole_punch_needed_and_worked", "same_nat_pair_over_lan", "randomwalk_steps", "retry_clean_round",
          "retry_lossy_round", "candidate_restarted_on_other_port", "pair:none/none/public", "pair:port/port/different", "pair:addr/port/different",
-         "pair:port/port/same", "first_puncture_request_lost", "introduced_again_after_failed_attempt"]
+         "pair:port/port/same", "first_puncture_request_lost", "introduced_again_after_failed_attempt", "candidates_at_exactly_max_peers"]
 
 KINDS = ("none", "full", "addr", "port")
 ZERO = ("0.0.0.0", 0)  # noqa: S104
@@ -115,7 +115,7 @@ def grid():  # noqa: ANN201
 
 DEFAULT_OPTS = {"order": "a_last", "gap": 0.3, "ports": "same", "nat_ports": "default", "lan": "10",
                 "endpoint": "auto", "c_shared": False, "mixed": False, "mixed_style": False, "reset_chance": 0,
-                "concurrent": False, "rounds": 1, "restart": False, "lan_overlap": False, "drop_preq": 0}
+                "concurrent": False, "rounds": 1, "restart": False, "lan_overlap": False, "drop_preq": 0, "cap_exact": False}
 
 
 def _case(scn, cell, n, seed, knobs=None, **opts) -> dict:  # noqa: ANN001, ANN003
@@ -149,6 +149,10 @@ def seeded(cell, seed: int, tier: str, lossy: bool) -> dict:  # noqa: ANN001
             "rounds": 1,
             "restart": rng.random() < 0.25,
             "lan_overlap": rng.random() < 0.3}
+    opts["cap_exact"] = rng.random() < 0.15 and not lossy
+    if opts["cap_exact"]:
+        n = 1          # (a candidate with one peer more than max_peers refuses further requests by design: one requester only)
+        opts["restart"] = False
     if rng.random() < 0.15 and not lossy:
         opts["rounds"] = 2
         opts["drop_preq"] = 1
@@ -179,6 +183,10 @@ def cases(tier: str, base_seed: int):  # noqa: ANN201
         if cell[2] == "different" and cell[1] != "none" and cell[0] != "none":
             s += 1
             yield _case("intro", cell, 2, s, lan_overlap=True)
+    for cell in cells:                       # the candidates' peer tables are filled to exactly max_peers
+        if cell[2] == "different" and cell[1] in ("addr", "port"):
+            s += 1
+            yield _case("intro", cell, 1, s, cap_exact=True)
     for cell in cells:                       # the first puncture-request is lost; the walker gives the address up; B introduces it again
         if cell[2] == "different" and cell[1] in ("addr", "port"):
             s += 1
@@ -598,6 +606,12 @@ def execute(case: dict) -> dict:  # noqa: C901, PLR0912, PLR0915
                 await quiesce()
             # introductions B handed out before this point may name an incarnation that no longer exists: not judged
             state["judge_from"] = loop.time()
+        if o.get("cap_exact"):
+            # history: every candidate's peer table is filled to EXACTLY its max_peers (it still answers requests: the limit is
+            # "more than max_peers")
+            for n in [x for x in order if x != "A"]:
+                t.nodes[n].ov.max_peers = len(t.nodes[n].ov.get_peers())
+            world.probe("candidates_at_exactly_max_peers")
         # 2. A asks B for an introduction
         ask(t.nodes["A"], b.address)
         await quiesce()
